@@ -100,6 +100,9 @@ def cases(c):
             out.append({'form': 'class', 'rel': 'scale' if j % 2 == 0 else 'sampling', 'cls': cls, 'p': params, 'N': N,
                         'NFFT': NFFT, 'cplx': int(rng.integers(0, 2)), 'kind': gen.pick(rng, ['noise', 'tones', 'ar']),
                         'fs': draw_fs(rng), 'fs2': draw_fs(rng), 'reuse': ((j // 3) % 4) if j % 3 == 1 else None, 'j': j})
+            if j % 8 == 7:
+                # a nearby rate (a calibrated clock: 4 parts per million) is another rate
+                out[-1]['fs2'] = out[-1]['fs'] * (1.0 + 4e-6)
     # the Daniell periodogram class (13th PSD class of the package): scale_by_freq clause only
     for j in range(40 if c.tier == 'quick' else 9600):
         N = int(rng.integers(32, 100))
